@@ -51,8 +51,21 @@ def _strip_walrus(e, env):
     return e2, dict(env, **found)
 
 
+RESOLVER = [None]   # optional: name -> FunctionDef of a module-level predicate whose formula replaces a call to it
+
+
 def expr_formula(e, env=None, depth=0):  # noqa: C901, PLR0911
     env = env or {}
+    if isinstance(e, ast.Call) and isinstance(e.func, ast.Name) and RESOLVER[0] is not None and not e.keywords:
+        callee = RESOLVER[0](e.func.id)
+        if callee is not None and len(callee.args.args) == len(e.args) and not callee.args.vararg and not callee.args.kwarg:
+            # the callee's formula with its parameters replaced by the (already renamed) arguments
+            env2 = {a.arg: _subst(v, env) for a, v in zip(callee.args.args, e.args)}
+            body = [s for s in callee.body if not (isinstance(s, ast.Expr) and isinstance(s.value, ast.Constant))]
+            try:
+                return block_formula(body, env2, depth)
+            except AnalysisError:
+                pass   # not a predicate in the recognised subset: stays an opaque atom
     if isinstance(e, ast.BoolOp) and any(isinstance(x, ast.NamedExpr) for x in ast.walk(e)):
         parts = []
         for v in e.values:
@@ -242,6 +255,12 @@ def equivalent(f1, f2, atoms_limit=12):
     return True, None
 
 
-def function_formula(fn):
+def function_formula(fn, resolver=None):
+    """resolver(name) -> FunctionDef | None: calls to such functions are replaced by the callee's own formula, so that it does
+    not matter whether a predicate lives in a helper or is written out in the caller."""
     body = [s for s in fn.body if not (isinstance(s, ast.Expr) and isinstance(s.value, ast.Constant))]
-    return simplify(block_formula(body))
+    RESOLVER[0] = resolver
+    try:
+        return simplify(block_formula(body))
+    finally:
+        RESOLVER[0] = None
